@@ -36,7 +36,11 @@ func TestVerifC07CacheNode(t *testing.T) {
 	errNotFound := errors.New("c07: not found")
 	verifc07.WriteTrace(t, secs, func(cfg verifh.Cfg) verifc07.Target {
 		mr.FlushAll()
-		node := NewNode(rds, syncx.NewSingleFlight(), st, errNotFound)
+		var barrier syncx.SingleFlight = syncx.NewSingleFlight()
+		if sfd := cfg.Str("sfd", "-"); sfd != "-" {
+			barrier = verifc07.NewSlowSF(sfd, barrier.Do, barrier.DoEx)
+		}
+		node := NewNode(rds, barrier, st, errNotFound)
 		return verifc07.Target{
 			Invoke: func(c *verifc07.Call, fn func() (any, error)) (any, string, error) {
 				var row c07Row
